@@ -28,6 +28,9 @@ type recvBytesFunc func(ctx context.Context) ([]byte, error)
 type GoBackNConn struct {
 	cfg *config
 
+	// isClient is true if this end initiated the handshake.
+	isClient bool
+
 	sendQueue *queue
 
 	// recvSeq keeps track of the latest, correctly sequenced packet
@@ -712,6 +715,25 @@ func (g *GoBackNConn) receivePacketsForever() error { // nolint:gocyclo
 			}
 
 			return errTransportClosing
+
+		case *PacketSYN:
+			// The client only ever receives SYN packets as the
+			// server's echo of its own SYN. If the client had to
+			// retransmit its SYN (or the SYN was duplicated), the
+			// server echoes it more than once and the extra echoes
+			// arrive after the handshake has completed. They carry
+			// no information, so the client ignores them. A SYN
+			// received by the server, on the other hand, means
+			// that the client has restarted the handshake, which
+			// invalidates this connection, and so does a SYN that
+			// proposes a different window size.
+			if !g.isClient || m.N != g.cfg.n {
+				return fmt.Errorf("received unexpected message: "+
+					"%T", msg)
+			}
+
+			g.log.Tracef("Ignoring SYN echo received after the " +
+				"handshake")
 
 		case *PacketSYNACK:
 			// A SYNACK in the data phase can only be a duplicate
